@@ -62,6 +62,8 @@ def check(run):
     cases = urlcorr.gen_cases(run.rng, n, hist_frac=1.0)
     # clears are not Standard API setters: keep them out of the Spec comparison histories
     cases = [(i, b, [(op, v) for op, v in ops if op.startswith("set_")], l) for (i, b, ops, l) in cases]
+    # deterministic probes of the known finding (the 16384-byte cap of ada::idna through the parse that starts a history, and through set_host)
+    cases = urlcorr.cap_cases() + [(b"http://h/", None, [("set_host", b"%61" + b"a" * 16380 + b".com")], None)] + cases
     res = urlcorr.explore(run, binp, cases)
     if res is None:
         return
